@@ -84,6 +84,20 @@ let model_answer h (mh, at) (stores : Store.store array) (r : read) (k : int) : 
        let ids = Stdlib.List.sort Z.compare (Stdlib.List.map (fun x -> zt_of_n x.Store.id) rows) in
        "L" ^ Stdlib.String.concat "+" (Stdlib.List.map Z.to_string ids)
      | _ -> "?")
+  | k when Stdlib.String.length k > 1 && k.[0] = 'M' ->
+    (match split_on 'c' (Stdlib.String.sub k 1 (Stdlib.String.length k - 1)) with
+     | [hs; cs] ->
+       let key = (match Stdlib.Hashtbl.find_opt at (int_of_string hs) with
+           | Some sub -> Some sub.Store.s_pl.Store.p_merkle | None -> None) in
+       (* merkle roots are distinct in these histories: the hash order of headers sharing a root plays no part *)
+       let hlt a b = Z.lt (zt_of_n a) (zt_of_n b) in
+       (match Merkle.page_http hlt s (Merkle.BInt (z_of_int (int_of_string cs))) key with
+        | Merkle.HPage (Merkle.POk (c, lk, _)) ->
+          "P" ^ Stdlib.String.concat "+" (Stdlib.List.map (fun (r, hgt) -> dec_of_n r ^ ":" ^ Z.to_string (zt_of_z hgt)) c)
+          ^ "k" ^ (match lk with None -> "-" | Some r -> dec_of_n r)
+        | Merkle.HPage Merkle.PErrNotFound -> "E404" | Merkle.HPage Merkle.PErrConflict -> "E409"
+        | Merkle.HPage Merkle.PErrNoTip -> "E500" | Merkle.HBadBatch -> "E400")
+     | _ -> "?")
   | "h" ->
     let rows = Query.by_height_range s (z_of_int mh.(r.kb)) (Some (z_of_int 3)) in
     let ids = Stdlib.List.sort Z.compare (Stdlib.List.map (fun x -> zt_of_n x.Store.id) rows) in
